@@ -343,7 +343,7 @@ func run(cx *lib.Ctx) {
 		}
 	}
 
-	n := cx.Scale(12000, 250000)
+	n := cx.Scale(10000, 250000)
 	layoutsPer := 5
 	for i := 0; i < n; i++ {
 		r := cx.R.Fork()
